@@ -75,6 +75,11 @@ add("C18", "fault_enumeration",
     "For every transition (StateTransition of a block, or ProcessSlots) of the base histories and one-deviation variants: a counting run learns the P context polls (with their call sites) and the E engine calls; then EVERY cancellation point (context cancelled from poll i on, i = 0..P-1) and EVERY non-trivial engine verdict vector in {valid, invalid, error}^E is executed on the real transition and must surface as an error (no panic); the undisturbed instrumented run must reproduce the plain post-state; recorded engine arguments (payload root, versioned hashes in commitment order, parent beacon block root) are compared with what the specification prescribes.",
     chnote + " A cancellation after the last poll of a transition is unobservable by any caller and not claimed.", "exhaustive fault-point enumeration (every context poll x every engine verdict vector) on the implementation", "DESIGN.md 3/C18")
 
+add("C17", "model_checking",
+    "Controlled cooperative scheduler over the REAL components (every Lock/RLock of the sync shim and every operation boundary is a scheduling point) + stateless DFS over all interleavings of 17 three-thread harnesses (fork-choice wrapper, pubkey cache incl. lazily decompressed keys and forked handles, the five pools; 1-2 colliding calls per thread) with iterative preemption bounding (<=2 quick, <=3 thorough); per complete schedule: deadlock check and brute-force linearizability of the recorded call/return history against the same object run sequentially (all orders consistent with real time); the same exploration is repeated in a -race build whose token hand-off creates NO happens-before edge, so that the race verdict covers every explored schedule and sees exactly the program's own synchronisation.",
+    "Trusted: the Go race detector and memory model; sequential behaviour of the components (tied to their models by C09/C16/C20). RWMutex writer preference not modelled (superset of real schedules). Unsynchronised code has no scheduling points inside: its races are found by the race pass.",
+    "stateless model checking of the implementation under a controlled scheduler (iterative preemption bounding) + happens-before race detection per explored schedule", "DESIGN.md 3/C17")
+
 claimed = {c["property_id"] for c in checks}
 na = [{"property_id": "C%02d" % i, "reason": "check not built yet (work in progress; same technique planned, see DESIGN.md section 3)"}
       for i in range(1, 21) if "C%02d" % i not in claimed]
@@ -89,6 +94,8 @@ m = {"version": 1,
           "kind_free_text": "explicit-state BFS over operation sequences on the real object, replay-from-root, exact state merging on (model state, full private-state dump)"},
          {"name": "chainx", "path": "internal/chainx, internal/chainh, internal/refspec, internal/refssz", "serves_properties": ["C01", "C02", "C03", "C07", "C08", "C13", "C14", "C18"],
           "kind_free_text": "deviation-bounded exhaustive explorer over beacon-chain histories; real zrnt transition vs reference specification model on every step"},
+         {"name": "schedx", "path": "internal/schedx, internal/concx, tools/shim", "serves_properties": ["C17"],
+          "kind_free_text": "controlled scheduler + DFS over thread interleavings with preemption bounding; linearizability by brute force; -race pass with HB-free hand-off"},
          {"name": "enumx", "path": "internal/numx, internal/shufx", "serves_properties": ["C06", "C19"],
           "kind_free_text": "bounded exhaustive enumeration of input shapes/values against reference implementations"}],
      "checks": checks,
